@@ -339,6 +339,13 @@ class ExprMixin:
         if t is None:
             return v
         if t[0] == 'opt':
+            # a variable declared Optional holds a VOpt on every path (so that a loop head covers None and not-None)
+            if isinstance(v, VOpt):
+                return v
+            if isinstance(v, VNone):
+                return VOpt(z3.BoolVal(True), fresh_val(t[1], 'none_default', st))
+            if isinstance(v, (VInt, VBool, VReal, VObj, VTup)):
+                return VOpt(z3.BoolVal(False), self.coerce(v, t[1], st))
             return v
         if isinstance(v, VRef):
             h = st.heap[v.rid]
